@@ -418,6 +418,15 @@ def gen_block(rnd, kind=None):
         return gen_grammar_block(rnd, Profile(**MEM_PROFILE)), kind
     if kind == "split":
         return gen_grammar_block(rnd, Profile(**SPLIT_PROFILE)), kind
+    if kind == "short":
+        if rnd.random() < 0.5:
+            return gen_grammar_block(rnd, Profile(minlen=1, maxlen=7, max_need=3, w_mem=0.8, w_sto=0.5, w_pseudo=0.1)), kind
+        t = _wrap(rnd, _P(rnd, 2), 2)
+        code = []
+        compile_tree(t, 0, code, 2)
+        if rnd.random() < 0.4:
+            code.append((rnd.choice(["DUP1", "SWAP1", "POP", "DUP2"]), None))
+        return code[:10] or [("PUSH", "1")], kind
     if kind == "long":
         return gen_grammar_block(rnd, Profile(minlen=15, maxlen=60, w_mem=3.0, w_sto=2.0, max_need=8)), kind
     if kind == "splitlong":
